@@ -33,7 +33,14 @@ Definition order_ok : bool :=
     [("os.RemoveAll", "bdir"); ("block.MarkForDeletion", "id")]%string
   && list_eqb ev_eqb bucket_compact_calls
     [("g.Compact", "workCtx"); ("c.sy.SyncMetas", "ctx"); ("c.blocksCleaner.DeleteMarkedBlocks", "ctx");
-     ("c.sy.GarbageCollect", "ctx"); ("c.grouper.Groups", "c.sy.Metas()")]%string.
+     ("c.sy.GarbageCollect", "ctx"); ("c.grouper.Groups", "c.sy.Metas()")]%string
+  (* on any error of the result upload (also a cancelled context: graceful shutdown) Group.compact
+     returns at once - nothing between the upload and the marking of the sources carries on *)
+  && list_eqb ev_eqb after_upload
+    [("return", "block.Upload(ctx, cg.logger, cg.bkt, bdir, cg.hashFunc, objstore.WithUploadConcurrency(cg.blockFilesConcurrency))");
+     ("if", "err != nil");
+     ("return", "false, nil, retry(errors.Wrapf(err, ""upload of %s failed"", compID))");
+     ("endif", "")]%string.
 
 (* ---- samples and finite sets as lists ---- *)
 Definition sample := (N * Z * Z)%type.     (* series, timestamp, value *)
